@@ -100,8 +100,20 @@ SYMS = [(), ("zz",), ("zz", "al"), ("cc", "aa", "bb")]   # order of first use; s
 CLAYOUTS = [(), (("c", 1),), (("c", 2),), (("d", 1), ("c", 1))]
 
 
+# thorough tier: three registers, registers of size 3, three classical registers (appended, so that the indices of
+# the quick tier's circuits stay the same)
+THOROUGH = [False]
+EXTRA_Q = [(("k", 1), ("g", 1), ("h", 1)), (("r", 3),), (("h", 3), ("g", 1)), (("k", 2), ("g", 1), ("h", 1))]
+EXTRA_C = [(("d", 2), ("c", 1)), (("e", 1), ("d", 1), ("c", 1)), (("c", 3),)]
+
+
 def circuits():
-    return [(q, s, c) for q in QLAYOUTS for s in SYMS for c in CLAYOUTS]
+    base = [(q, s, c) for q in QLAYOUTS for s in SYMS for c in CLAYOUTS]
+    if not THOROUGH[0]:
+        return base
+    seen = set(base)
+    more = [(q, s, c) for q in QLAYOUTS + EXTRA_Q for s in SYMS for c in CLAYOUTS + EXTRA_C]
+    return base + [x for x in more if x not in seen]
 
 
 def circuit_src(spec):
@@ -417,6 +429,7 @@ def part_exec(ctx):
 
 
 def run(ctx):
+    THOROUGH[0] = not ctx.quick
     cs = cases()
     run_case(cs[0])        # warm the parent so forked workers inherit parsed std-lib definitions
     results = ctx.pmap(run_case, cs, chunk=8)
@@ -469,6 +482,10 @@ def run(ctx):
 
 
 def replay(ctx, item):
+    THOROUGH[0] = True          # a superset with the same indices
+    if "exec" in item:
+        r = run_exec_case(tuple(item["exec"]))
+        return {"violation": bool(r.get("bad")), "result": {k: str(v)[:400] for k, v in r.items()}}
     r = run_case(item)
     r["source"] = case_src(item)
     r["violation"] = "key" in r
